@@ -15,6 +15,24 @@ CHECKS = {
         text="Every generated font is built by the real pipeline in-process; for every source the glyph reached by a mini-shaper is interpreted by an independent COLRv1 evaluator and compared layer by layer (outline Hausdorff distance, inside/outside grid, colour at interior points with a gradient-parameter envelope, opacity-group structure, clip box) with an independent SVG evaluator run on the picosvg-normal source placed by the statement's affine. Held-on-observed only: reach comes from generator diversity (shapes, gradients, units, transforms, spread, groups, viewBoxes, metrics, user transforms, reuse across glyphs).",
         design="3/C01",
     ),
+    "C02": dict(
+        level="exploration",
+        technique="runtime monitoring: SVG-document evaluator (use/defs/inheritance) vs source evaluator over generated OT-SVG builds; resvg pixel oracle for untouchedsvg; contracts H2/H9",
+        text="Generated source sets with shapes shared across glyphs are compiled to picosvg/picosvgz in-process; the glyph id reached by the mini-shaper must lie in exactly one document with exactly one glyph<ID> element, whose evaluation in OT-SVG space is compared layer by layer with the source placed as in C01. untouchedsvg[z]: the emitted element and an independently placed copy of the raw source are rasterised by resvg and compared pixelwise under an edge budget. Held-on-observed only.",
+        design="3/C02",
+    ),
+    "C03": dict(
+        level="exploration",
+        technique="runtime monitoring: layer/contour matching oracle (COLRv0 records + CPAL, glyf components, CFF charstrings) against the source evaluator over generated builds",
+        text="COLRv0 and glyf builds of generated source sets: for solid-only sources the COLRv0 layers (colour and alpha from CPAL) are compared layer by layer with the source and the base glyph bounds must cover them; for any source every source contour must be matched one-to-one (maximum bipartite matching under the outline tolerance) by a contour of the layers / components / inlined outline, leftovers must have zero area.",
+        design="3/C03",
+    ),
+    "C05": dict(
+        level="exploration",
+        technique="runtime monitoring: clip boxes read from the binary vs independently evaluated source and compiled geometry; contract H3 on write_font._bounds",
+        text="For every colour glyph of generated COLRv1 fonts (reuse by rotation/reflection/scale, user transforms, content outside the viewBox, quantisation default/1/arbitrary) the ClipBox from the binary must contain each source shape placed by the statement's affine, the compiled outlines pushed through the paint transforms may protrude at most 1*sigma+fixed-point error, edges must be multiples of the step, and glyphs that paint nothing must have no box.",
+        design="3/C05",
+    ),
 }
 
 NOT_YET = {}
